@@ -185,7 +185,7 @@ func (r *Run) Finish(cov map[string]any, assumptions []string) {
 		dir := filepath.Join(Root(), "evidence")
 		os.MkdirAll(dir, 0o755)
 		b, _ := json.MarshalIndent(ev, "", " ")
-		if err := os.WriteFile(filepath.Join(dir, r.Prop+".json"), append(b, '\n'), 0o644); err != nil {
+		if err := os.WriteFile(filepath.Join(dir, r.Prop+os.Getenv("VERIF_EVIDENCE_SUFFIX")+".json"), append(b, '\n'), 0o644); err != nil {
 			fmt.Fprintln(os.Stderr, "evidence:", err)
 			os.Exit(2)
 		}
